@@ -56,6 +56,11 @@ def termlen(v):
     return load()['termlen'][_k(v)]
 
 
+def datamap(v):
+    """rows of 0/1: 1 where the module is a data module (versions M1..M4, 1..5, 7)"""
+    return load()['datamap'][(-3, -2, -1, 0, 1, 2, 3, 4, 5, 7).index(v)]
+
+
 def layout(v, e):
     return load()['layout'][_k(v)][e]
 
